@@ -30,6 +30,8 @@ func (t *TransactionCancelTimer) Start() error {
 		return fmt.Errorf("TransactionCancelTimer already started")
 	}
 	t.done = make(chan struct{})
+	// the goroutine works on its own reference of the channel, t.done is only accessed with the doneMutex held.
+	done := t.done
 
 	go func() {
 		timer := time.NewTimer(t.delay)
@@ -44,11 +46,10 @@ func (t *TransactionCancelTimer) Start() error {
 			if t.fnc != nil {
 				t.fnc()
 			}
-		case <-t.done:
+		case <-done:
 			// Stop the timer
 			log.Infof("TransactionCancelTimer stopped")
 			verifYield("timer.stopped")
-			t.done = nil
 		}
 	}()
 
@@ -63,4 +64,6 @@ func (t *TransactionCancelTimer) Stop() {
 		return
 	}
 	close(t.done)
+	// Stop is called by confirm, by cancel and by the expiry path itself, make sure the channel is closed only once.
+	t.done = nil
 }
